@@ -144,6 +144,9 @@ func (bd *basicDigester) DigestPrefix(level uint) ([]Digest, error) {
 
 func (bd *basicDigester) Digest(level uint) (Digest, error) {
 	verifEvent("digester.use", bd)
+	if mask := verifLevel0DigestMask(); mask != 0 && level == 0 {
+		return Digest(bd.circleHash64 & mask), nil
+	}
 	if level >= bd.Levels() {
 		// level must be [0, bd.Levels()) (not inclusive) for digest
 		return 0, NewHashLevelErrorf("cannot get digest at level %d: level must be [0, %d)", level, bd.Levels())
